@@ -600,7 +600,7 @@ fn main() {
         "resource bounds are measured with fixed constants (peak extra bytes <= 64*len + 4 MiB, allocations above 1 GiB refused, 2 s / 4 s wall watchdog, 100 virtual seconds for a reply); they are evidence for the explored families, not a proof for all lengths".into(),
         "decoding and handling run on a 2 MiB stack (tokio worker default) inside a child process; the backend is the in-harness Redis stand-in".into(),
     ];
-    let thorough = cli.thorough();
+    let thorough = cli.level() >= 1;
     if let Some(path) = &cli.replay {
         let body: Value = serde_json::from_str(&std::fs::read_to_string(path).expect("replay")).expect("json");
         let r = &body["replay"];
